@@ -869,8 +869,7 @@ def OP_CALL(tape: Tape, stack: Stack, cache: dict) -> None:
     subtape.pointer = 0
     run_tape(subtape, stack, cache, additional_flags=tape.flags)
     subtape.pointer = init_pointer
-    if 'returned' in cache:
-        del cache['returned']
+    subtape.returned = False
 
 def OP_IF(tape: Tape, stack: Stack, cache: dict) -> None:
     """Read the next 2 bytes from the tape, interpreting as an unsigned
@@ -891,7 +890,7 @@ def OP_IF(tape: Tape, stack: Stack, cache: dict) -> None:
             contracts=tape.contracts
         )
         run_tape(subtape, stack, cache, additional_flags=tape.flags)
-        if 'returned' in cache:
+        if subtape.returned:
             OP_RETURN(tape, stack, cache)
 
 def OP_IF_ELSE(tape: Tape, stack: Stack, cache: dict) -> None:
@@ -917,7 +916,7 @@ def OP_IF_ELSE(tape: Tape, stack: Stack, cache: dict) -> None:
         contracts=tape.contracts,
     )
     run_tape(subtape, stack, cache, additional_flags=tape.flags)
-    if 'returned' in cache:
+    if subtape.returned:
         OP_RETURN(tape, stack, cache)
 
 def OP_EVAL(tape: Tape, stack: Stack, cache: dict) -> None:
@@ -946,11 +945,9 @@ def OP_EVAL(tape: Tape, stack: Stack, cache: dict) -> None:
 
     # run
     run_tape(subtape, stack, cache, additional_flags=tape.flags)
-    if 'returned' in cache:
+    if subtape.returned:
         if 'eval_return' in tape.flags and tape.flags['eval_return']:
             OP_RETURN(tape, stack, cache)
-        else:
-            del cache['returned']
 
 def OP_NOT(tape: Tape, stack: Stack, cache: dict) -> None:
     """Pulls a value from the stack; performs bitwise NOT operation;
@@ -970,7 +967,7 @@ def OP_RANDOM(tape: Tape, stack: Stack, cache: dict) -> None:
 def OP_RETURN(tape: Tape, stack: Stack, cache: dict) -> None:
     """Ends the script."""
     tape.pointer = len(tape.data)
-    cache['returned'] = True
+    tape.returned = True
 
 def OP_SET_FLAG(tape: Tape, stack: Stack, cache: dict) -> None:
     """Read the next byte from the tape, interpreting as an unsigned int;
@@ -1190,7 +1187,7 @@ def OP_TRY_EXCEPT(tape: Tape, stack: Stack, cache: dict) -> None:
         )
         run_tape(subtape, stack, cache, additional_flags=tape.flags)
 
-    if 'returned' in cache:
+    if subtape.returned:
         OP_RETURN(tape, stack, cache)
 
 def OP_LESS(tape: Tape, stack: Stack, cache: dict) -> None:
@@ -1271,7 +1268,7 @@ def OP_LOOP(tape: Tape, stack: Stack, cache: dict) -> None:
     while bytes_to_bool(condition):
         sert(count < tape.callstack_limit, 'OP_LOOP limit exceeded')
         run_tape(subtape, stack, cache)
-        if 'returned' in cache:
+        if subtape.returned:
             return
         subtape.reset_pointer()
         count += 1
